@@ -8,7 +8,7 @@ from geckolib.driver.protocol.packet import GeckoPacketProtocolHandler
 
 DELIMS = [b"<PACKT>", b"</PACKT>", b"<SRCCN>", b"</SRCCN>", b"<DESCN>", b"</DESCN>", b"<DATAS>", b"</DATAS>"]
 TOKENS = DELIMS + [b"\n", b"x", b"STATV"]
-IDS = [b"", b"x", b"IOSx", b"SPAx\nx", b"x:x"]
+IDS = [b"", b"x", b"IOSx", b"SPAx\nx", b"x:x", b"a<b"]
 
 
 def main(bound):
